@@ -18,7 +18,7 @@ impl Property for C12 {
         "fault_enumeration"
     }
     fn rule(&self) -> String {
-        "case = generated F-horn(+auto/coinductive) program with 3 goals; the solver talks to a delegating database that panics at its n-th call; for the first goal and each solver, EVERY crash point n = 0..N-1 is enumerated (N = database calls of a clean solve, capped at 120 quick / 400 thorough, then evenly sampled); in a third of the crash points a second panic is injected during the retry. After catch_unwind the same solver instance re-solves the goal and the other goals. Oracle: no later solve panics and each renders identically to a fresh solver's answer. Non-trivial = crash point n >= 1 (mid-search, beyond tests/integration/panic.rs) that was actually reached; distinct by hash of (program, goal, solver, n).".into()
+        "(a quarter of the programs have mixed inductive / coinductive cycles) case = generated F-horn(+auto/coinductive) program with 3 goals; the solver talks to a delegating database that panics at its n-th call; for the first goal and each solver, EVERY crash point n = 0..N-1 is enumerated (N = database calls of a clean solve, capped at 120 quick / 400 thorough, then evenly sampled); in a third of the crash points a second panic is injected during the retry. After catch_unwind the same solver instance re-solves the goal and the other goals. Oracle: no later solve panics and each renders identically to a fresh solver's answer. Non-trivial = crash point n >= 1 (mid-search, beyond tests/integration/panic.rs) that was actually reached; distinct by hash of (program, goal, solver, n).".into()
     }
     fn assumptions(&self) -> Vec<String> {
         vec!["the fault-injecting database is harness code delegating to the lowered Program; program_clauses_for_env goes through the wrapper so nested callbacks are counted".into()]
@@ -28,7 +28,18 @@ impl Property for C12 {
     }
     fn decode(&self, t: &mut Tape, _tier: Tier) -> PG {
         let cfg = if t.chance(40) { GenCfg::horn_auto() } else { GenCfg::horn() };
-        super::c01::decode_pg(t, &cfg, &GoalCfg::full(), 3)
+        let mut pg = super::c01::decode_pg(t, &cfg, &GoalCfg::full(), 3);
+        // shape knob: mixed inductive / coinductive cycles. The other generators keep "coinductive depends only on
+        // coinductive" because the reference model needs the stratification; this check compares a solver with itself
+        // (fresh vs after a panic), so cycles through both kinds of trait — which chalk has to reject — can take part.
+        if t.chance(25) {
+            for tr in pg.program.traits.iter_mut() {
+                if tr.kind == crate::model::TraitKind::Inductive && t.chance(50) {
+                    tr.kind = crate::model::TraitKind::Coinductive;
+                }
+            }
+        }
+        pg
     }
     fn describe(&self, case: &PG) -> Value {
         case.describe()
@@ -57,6 +68,21 @@ impl Property for C12 {
                         }
                     })
                     .collect();
+                // the same goals in the same order on one instance *without* any fault: an answer that differs from the fresh
+                // one here as well depends on the solver's history, not on the panic (that is C10's subject)
+                let baseline: Vec<Option<String>> = {
+                    let mut s = sv.choice().into_solver();
+                    low.goals
+                        .iter()
+                        .map(|lg| {
+                            let lg = lg.as_ref()?;
+                            match solve_with(&mut *s, &fdb, &lg.peeled.goal, DEFAULT_BUDGET).0 {
+                                Run::Done(x) => Some(render(&x)),
+                                _ => None,
+                            }
+                        })
+                        .collect()
+                };
                 let lg = match &low.goals[0] {
                     Some(x) => x,
                     None => continue,
@@ -112,7 +138,16 @@ impl Property for C12 {
                         match r {
                             Run::Done(s) => {
                                 let got = render(&s);
-                                if &got != exp {
+                                if &got != exp && baseline[gj].as_ref() == Some(&got) && sv != Sv::Slg {
+                                    // a cycle through inductive and coinductive traits: the recursive solver's answer depends
+                                    // on where the cycle is entered (recorded finding)
+                                    let mixed = case.program.impls.iter().any(|im| im.wcs.iter().any(|w| (case.program.traits[w.tr].kind == crate::model::TraitKind::Inductive) != (case.program.traits[im.head.tr].kind == crate::model::TraitKind::Inductive)));
+                                    out.fail(
+                                        format!("{}:answer-depends-on-history-without-any-panic:{}{}", sv.name(), super::c10::diff_class(exp, &got), if mixed { ":mixed-cycle" } else { "" }),
+                                        ctx(format!("`{}` is answered `{}` on an instance that solved the other goals before (with or without the injected panic); a fresh solver says `{}`", lgj.text, got, exp)),
+                                    );
+                                    ok = false;
+                                } else if &got != exp {
                                     out.fail(
                                         // SLG: one root cause (in-flight strand dropped on unwind) produces every kind of
                                         // difference, so the class is not refined for it
